@@ -195,15 +195,16 @@ template <class K> static void pending_case(Ctx &ctx) {
 
 // index-width boundaries (255/256, 65535/65536 entities): the writer switches integer encodings there. The three counts
 // that determine handle widths (vertices, halfedges, halffaces) are chosen independently, so that e.g. few halfedges meet many halffaces.
-static void boundary_case(Ctx &ctx, bool big) {
+static void boundary_case(Ctx &ctx, bool big, int j) {
     Rng &rng = ctx.rng;
-    static const int sizes[] = {254, 255, 256, 257, 127, 128, 129, 65534, 65535, 65536, 65537, 32767, 32768, 32769};
-    auto bval = [&] { return sizes[big ? 7 + rng.below(7) : rng.below(7)]; };
-    auto other = [&] { return rng.chance(1, 3) ? bval() : 3 + (int)rng.below(40); };
-    int n = bval();
-    int which = (int)rng.below(3);   // which count sits on the boundary for sure: vertices, halfedges, halffaces
-    int nv = which == 0 ? n : other(), ne = which == 1 ? (n + (int)rng.below(2)) / 2 : (other() + 1) / 2, nf = which == 2 ? (n + (int)rng.below(2)) / 2 : (other() + 1) / 2;
-    nv = std::max(nv, 2); ne = std::max(ne, 1);
+    // classes: 0 small, 1..3 = one below / at / one above the count at which the largest handle stops fitting the narrower width.
+    // The 16 combinations of (edge class, face class) are enumerated by the case index, the vertex class every 16 cases.
+    const int B = big ? 65536 : 256;
+    auto count = [&](int cls, bool halves) { if (cls == 0) return 2 + (int)rng.below(40); int c = halves ? B / 2 : B; return c + cls - 2; };
+    int fcls = j % 4, ecls = (j / 4) % 4, vcls = j < 16 ? (int)rng.below(4) : j % 4;
+    if (j >= 16) { fcls = (int)rng.below(4); ecls = (int)rng.below(4); }
+    int nv = count(vcls, false), ne = count(ecls, true), nf = count(fcls, true);
+    int n = B;
     XMesh<PolyK> m;
     for (int i = 0; i < nv; ++i) m.add_vertex(Vec3d(i, i % 7, -i));
     // edges between arbitrary vertices (parallel edges allowed), the last one uses the last vertex
@@ -222,7 +223,7 @@ static void boundary_case(Ctx &ctx, bool big) {
     Canon cm = extract_canon(m, false);
     IO::WriteResult wr; std::string bytes = write_ovmb_bytes([&](std::ostream &os) { return IO::ovmb_write(os, m); }, wr);
     ctx.op("boundary mesh V/E/F = " + std::to_string(m.n_vertices()) + "/" + std::to_string(m.n_edges()) + "/" + std::to_string(m.n_faces()) + " -> " + std::to_string(bytes.size()) + " bytes");
-    ctx.cnt.add("ovmb.boundary-files"); ctx.cls("boundary:" + std::to_string(n));
+    ctx.cnt.add("ovmb.boundary-files"); ctx.cls("boundary:" + std::to_string(n) + ":v" + std::to_string(vcls) + "e" + std::to_string(ecls) + "f" + std::to_string(fcls));
     VF_CHECK(wr == IO::WriteResult::Ok, "oracle:ovmb.write-failed", "boundary mesh");
     Canon cr; std::string err; VF_CHECK(ref_to_canon(bytes, cr, err), "oracle:ovmb.writer-violates-format", "boundary mesh: " << err);
     cm.topo_type = cr.topo_type;
@@ -281,7 +282,7 @@ static CaseFn mk_c06(const Args &a) {
     return [=](Ctx &ctx) {
         long long c = ctx.case_no; int k = (int)(c % 5); int what = (int)(c / 5 % 10);
         if (what == 9) { if (k == 3) pending_case<TetK>(ctx); else if (k == 4) pending_case<HexK>(ctx); else pending_case<PolyK>(ctx); return; }
-        if (what == 8 && (k == 0 || k == 2 || k == 3)) { boundary_case(ctx, thorough && (c / 50) % 4 == 0 && k == 0); return; }
+        if (what == 8 && (k == 0 || k == 2 || k == 3)) { boundary_case(ctx, thorough && (c / 50) % 8 == 7, (int)((c / 50) * 3 + (k == 0 ? 0 : k - 1)) % 20); return; }
         if (what == 8 && k == 1) { valence_case(ctx); return; }
         if (what % 2 == 0) { if (k == 3) ovmb_case<TetK>(ctx, nvar); else if (k == 4) ovmb_case<HexK>(ctx, nvar); else ovmb_case<PolyK>(ctx, nvar); }
         else { if (k == 3) ascii_case<TetK>(ctx); else if (k == 4) ascii_case<HexK>(ctx); else ascii_case<PolyK>(ctx); }
